@@ -891,6 +891,22 @@ func (c *SpecCtx) call(n *ECall) (Val, types.Type) {
 			c.fail("pageat: %v", err)
 		}
 		return I(sx("eptr", sv.Arr, sx("+", sv.Off, "0"))), pt
+	case "rawslice": // rawslice(p, off, "pkg.T"): the []T view of raw memory starting off bytes behind pointer p (A-unsafe; see rawMem)
+		v, _ := arg(0)
+		o, _ := arg(1)
+		ts, ok := n.Args[2].(*EStr)
+		if !ok {
+			c.fail("rawslice(p, off, \"type\")")
+		}
+		et, err := x.eng.resolveType(c.pkg, ts.V)
+		if err != nil {
+			c.fail("rawslice: %v", err)
+		}
+		big := "4611686018427387904"
+		return SliceV{Arr: x.rawMem(), Off: x.rawIndex(sx("+", v.(Sc).T, o.(Sc).T), et), Len: big, Cap: big}, types.NewSlice(et)
+	case "israw": // israw(s): the slice is a view of raw memory
+		v, _ := arg(0)
+		return B(sx("=", v.(SliceV).Arr, x.rawMem())), tBool
 	case "isobject": // isobject(p): p is the reference of a separately allocated object (not an interior pointer)
 		v, _ := arg(0)
 		return B(sx(">", v.(Sc).T, "0")), tBool
@@ -923,6 +939,37 @@ func (c *SpecCtx) call(n *ECall) (Val, types.Type) {
 		for _, l := range locs {
 			srt := x.eng.heapSorts[l.heap]
 			eqs = append(eqs, sx("=", x.heap(c.cur, l.heap, srt), x.heap(c.old, l.heap, srt)))
+		}
+		return B(and(eqs...)), tBool
+	case "sameobjs": // sameobjs("T.f"): field f of every T object that existed in the old state (also embedded ones) is unchanged
+		str, ok := n.Args[0].(*EStr)
+		if !ok || c.old == nil {
+			c.fail("sameobjs(\"T.f\") needs a two-state context")
+		}
+		k := strings.LastIndex(str.V, ".")
+		if k < 0 {
+			c.fail("sameobjs(\"T.f\")")
+		}
+		t, err := x.eng.resolveType(c.pkg, str.V[:k])
+		if err != nil {
+			c.fail("sameobjs: %v", err)
+		}
+		mc := &SpecCtx{x: x, cur: c.old, old: c.old, env: map[string]envEntry{}, pkg: c.pkg, qn: c.qn}
+		locs, err := x.fieldLocs(mc, t, str.V[k+1:], "")
+		if err != nil {
+			c.fail("sameobjs: %v", err)
+		}
+		x.declRoot()
+		var eqs []string
+		for _, l := range locs {
+			srt := x.eng.heapSorts[l.heap]
+			hc, ho := x.heap(c.cur, l.heap, srt), x.heap(c.old, l.heap, srt)
+			if hc == ho {
+				continue
+			}
+			*c.qn++
+			a := fmt.Sprintf("a$so%d", *c.qn)
+			eqs = append(eqs, fmt.Sprintf("(forall ((%s Int)) (! (=> (<= (root %s) %s) (= (select %s %s) (select %s %s))) :pattern ((select %s %s))))", a, a, c.old.alc, hc, a, ho, a, hc, a))
 		}
 		return B(and(eqs...)), tBool
 	case "entry": // entry(e): e evaluated in the state in which the enclosing loop was entered (loop invariants only)
@@ -1034,6 +1081,30 @@ func (c *SpecCtx) call(n *ECall) (Val, types.Type) {
 			x.declSort("Str")
 		}
 		return Sc{T: x.heap(c.cur, rn, sort), S: sort}, rt
+	case "lastretarr", "lastretoff", "lastretlen": // header of a slice result of the most recent call
+		ks, ok := n.Args[0].(*EStr)
+		il, ok2 := n.Args[1].(*EInt)
+		if !ok || !ok2 {
+			c.fail("%s(\"funckey\", index)", n.Fun)
+		}
+		key, err := x.eng.resolveKey(normKey(c.pkg, ks.V))
+		if err != nil {
+			c.fail("%s: %v", n.Fun, err)
+		}
+		rn := fmt.Sprintf("%s$argret%s.%s", callCounter(key), il.V, strings.TrimPrefix(n.Fun, "lastret"))
+		return I(x.heap(c.cur, rn, "Int")), tInt
+	case "lastargarr", "lastargoff", "lastarglen": // header of a slice argument of the most recent call (backing array, offset, length)
+		ks, ok := n.Args[0].(*EStr)
+		il, ok2 := n.Args[1].(*EInt)
+		if !ok || !ok2 {
+			c.fail("%s(\"funckey\", index)", n.Fun)
+		}
+		key, err := x.eng.resolveKey(normKey(c.pkg, ks.V))
+		if err != nil {
+			c.fail("%s: %v", n.Fun, err)
+		}
+		an := fmt.Sprintf("%s$arg%s.%s", callCounter(key), il.V, strings.TrimPrefix(n.Fun, "lastarg"))
+		return I(x.heap(c.cur, an, "Int")), tInt
 	case "lastarg", "lastargnil": // lastarg("funckey", i): argument i (receiver = 0) of the most recent call of a function under contract
 		ks, ok := n.Args[0].(*EStr)
 		il, ok2 := n.Args[1].(*EInt)
